@@ -160,7 +160,7 @@ func runC15(c *Ctx) {
 	}
 
 	// leaf / node / empty hashing
-	hnew := "call<(crypto.Hash).New>(load(faddr<hash>(p0)))"
+	hnew := "call<(crypto.Hash).New>(load(faddr<#0>(p0)))"
 	prefix := func(v string) string {
 		return "call<(hash.Hash).Write>(self, slice(obj(alloc<[1]byte>, store(iaddr(self, 0), " + v + ")), 0, none))"
 	}
